@@ -229,6 +229,90 @@ theorem async_shuffle2 [Inhabited α] (inner : Rule2 σ α) (g : Grid α) (R C r
   rw [step2_async inner g R C r vn t a s c hR hC hnd hin hc hna
     (next_order_perm a a.order (List.Perm.refl _) (fun _ => hsh)), hn]
 
+/-- **Whole 2D run, fixed order, starting at position 0**: the grids are those of the sequential
+    evolution (`Spec.seqRun2`) in which step `t` (1-based) overwrites only the cell
+    `order[(t-1) mod len]` with the wrapped rule's value on its current neighbourhood and copies every
+    other cell; the wrapped rule's state is threaded through exactly these calls. -/
+theorem async_run2 [Inhabited α] (inner : Rule2 σ α) (g : Grid α) (R C r : Nat) (vn : Bool) (k : Nat)
+    (a : AsyncSt (Nat × Nat)) (s : σ) (hR : r ≤ R) (hC : r ≤ C) (hnd : a.order.Nodup)
+    (hin : ∀ x ∈ a.order, x ∈ cellsRowMajor R C) (hne : a.order ≠ []) (hcurr : a.curr = 0)
+    (hna : a.numApplied = 0) (hrand : a.randomize = false) :
+    Spec.run2 (asyncRule2 inner) R C r vn k 1 g (a, s)
+      = ((seqRun2 inner R C r vn (fun t => a.order[(t - 1) % a.order.length]!) k 1 g s).1,
+         ({ a with curr := k % a.order.length },
+          (seqRun2 inner R C r vn (fun t => a.order[(t - 1) % a.order.length]!) k 1 g s).2)) := by
+  have hpos : 0 < a.order.length := List.length_pos_iff.2 hne
+  have hsched : (fun t' => a.cellAt (t' - 1)) = fun t => a.order[(t - 1) % a.order.length]! := by
+    funext t
+    simp [AsyncSt.cellAt, AsyncSt.orderAt, hrand, hcurr]
+  have hafter : a.after k = { a with curr := k % a.order.length } := by
+    apply AsyncSt.ext' <;> simp [AsyncSt.after, AsyncSt.orderAt, hrand, hna, hcurr]
+  have key := run2_async inner R C r vn a.order hnd hin hR hC k 1 g a s (List.Perm.refl _)
+    (by simp [hrand]) hna (by omega)
+  rw [hsched, hafter] at key
+  exact key
+
+/-- **`evolve2d` with a fixed order**: for both neighbourhood types, the evolution of an `R × C` grid
+    is the initial grid followed by the sequential evolution in which step `t` touches only
+    `order[(t-1) mod len]`. -/
+theorem async_evolve2d [DecidableEq α] [Inhabited α] (inner : Rule2 σ α) (init : Grid α) (R C r T : Nat)
+    (nb : NbType) (a : AsyncSt (Nat × Nat)) (s : σ) (hnb : nb ≠ .unknown) (hg : Rect init R C)
+    (hR1 : 1 ≤ R) (hC1 : 1 ≤ C) (hR : r ≤ R) (hC : r ≤ C) (hT : 1 ≤ T) (hnd : a.order.Nodup)
+    (hin : ∀ x ∈ a.order, x ∈ cellsRowMajor R C) (hne : a.order ≠ []) (hcurr : a.curr = 0)
+    (hna : a.numApplied = 0) (hrand : a.randomize = false) :
+    evolve2dFixed [init] T (asyncRule2 inner) r nb .plain (a, s)
+      = .ok (init :: (seqRun2 inner R C r (decide (nb = .vonNeumann))
+                (fun t => a.order[(t - 1) % a.order.length]!) (T - 1) 1 init s).1,
+             ({ a with curr := (T - 1) % a.order.length },
+              (seqRun2 inner R C r (decide (nb = .vonNeumann))
+                (fun t => a.order[(t - 1) % a.order.length]!) (T - 1) 1 init s).2)) := by
+  rw [C02.evolve2dFixed_plain_eq_spec [init] init rfl T hT _ R C r nb hnb hg hR1 hC1 hR hC,
+    async_run2 inner init R C r _ (T - 1) a s hR hC hnd hin hne hcurr hna hrand]
+  rfl
+
+/-- **Whole 2D run with `randomize_each_cycle`, for every oracle**: as in 1D, every step overwrites
+    exactly one listed cell — position `(curr + (t'-t)) mod len` of the order in force at that step —
+    and afterwards the order is still a permutation of the original one, the counter is zero and the
+    position is in range. -/
+theorem async_shuffle_run2 [Inhabited α] (inner : Rule2 σ α) (orig : List (Nat × Nat)) (g : Grid α)
+    (R C r : Nat) (vn : Bool) (k t : Nat) (a : AsyncSt (Nat × Nat)) (s : σ) (hR : r ≤ R) (hC : r ≤ C)
+    (hnd : orig.Nodup) (hin : ∀ x ∈ orig, x ∈ cellsRowMajor R C) (ho : a.order.Perm orig)
+    (hsh : ∀ o ∈ a.shuffles, o.Perm orig) (hc : a.curr < a.order.length) (hna : a.numApplied = 0)
+    (hrand : a.randomize = true) :
+    let sched : Nat → Nat × Nat := fun t' =>
+      ((a.order :: a.shuffles)[min (t' - t) a.shuffles.length]!)[(a.curr + (t' - t)) % a.order.length]!
+    let res := Spec.run2 (asyncRule2 inner) R C r vn k t g (a, s)
+    res = ((seqRun2 inner R C r vn sched k t g s).1,
+           ({ order := (a.order :: a.shuffles)[min k a.shuffles.length]!,
+              curr := (a.curr + k) % a.order.length, numApplied := 0, randomize := true,
+              shuffles := a.shuffles.drop k },
+            (seqRun2 inner R C r vn sched k t g s).2)) ∧
+    (∀ t', sched t' ∈ orig) ∧
+    res.2.1.order.Perm orig ∧ res.2.1.numApplied = 0 ∧ res.2.1.curr < res.2.1.order.length := by
+  intro sched res
+  have hne : a.order ≠ [] := List.ne_nil_of_length_pos (by omega)
+  have hsched : (fun t' => a.cellAt (t' - t)) = sched := by
+    funext t'
+    simp [sched, AsyncSt.cellAt, AsyncSt.orderAt, hrand]
+  have hafter : a.after k = ⟨(a.order :: a.shuffles)[min k a.shuffles.length]!,
+      (a.curr + k) % a.order.length, 0, true, a.shuffles.drop k⟩ := by
+    apply AsyncSt.ext' <;> simp [AsyncSt.after, AsyncSt.orderAt, hrand]
+  have key : res = _ := run2_async inner R C r vn orig hnd hin hR hC k t g a s ho (fun _ => hsh) hna hc
+  rw [hsched, hafter] at key
+  have hperm : ((a.order :: a.shuffles)[min k a.shuffles.length]!).Perm orig := by
+    have := orderAt_perm a orig ho (fun _ => hsh) k
+    simpa [AsyncSt.orderAt, hrand] using this
+  refine ⟨key, ?_, ?_, ?_, ?_⟩
+  · intro t'
+    have := cellAt_mem a orig ho (fun _ => hsh) hne (t' - t)
+    rw [← hsched]; exact this
+  · rw [key]; exact hperm
+  · rw [key]
+  · rw [key]
+    simp only
+    rw [hperm.length_eq, ← ho.length_eq]
+    exact Nat.mod_lt _ (by omega)
+
 /-! ## Orders generated from `num_cells` -/
 
 /-- The 1D order generated from `num_cells = n` lists every cell `0 .. n-1` once, and so does every
